@@ -24,7 +24,7 @@ ASSUMPTIONS = ['initial nodes exist in G, are distinct, and infected/recovered s
 BUDGET = {'quick': 150, 'thorough': 1200}
 CHUNK = {'quick': 40, 'thorough': 200}
 SIMS = simreg.SIR_SIMS + simreg.SIS_SIMS
-REQUIRED = ['start_rows_checked', 'form_pairs_compared', 'rho_calls_checked', 'both_rejections_checked', 'wrapper_pairs_compared']
+REQUIRED = ['barrier_bounds_checked', 'barrier_cases_with_shielded_nodes', 'start_rows_checked', 'form_pairs_compared', 'rho_calls_checked', 'both_rejections_checked', 'wrapper_pairs_compared']
 MINE = lambda pred: pred in c04.START_PREDS or pred == 'full_data_object_returned'
 
 
@@ -92,6 +92,29 @@ def run_case(case):
                  {'err': repr(err)})
             return res
         bump(res, 'start_rows_checked')
+        if call.model == 'SIR' and call.R0 and call.I0 is not None and not case.get('full'):
+            # "initially recovered nodes ... are never infected later", observable in the plain arrays: the epidemic is confined to what
+            # the initially infected nodes can reach without passing through an initially recovered node
+            G = call.G
+            blocked = set(call.R0)
+            seen = set(u for u in call.I0 if u not in blocked)
+            stack = list(seen)
+            while stack:
+                u = stack.pop()
+                for v in G.neighbors(u):
+                    if v not in seen and v not in blocked:
+                        seen.add(v)
+                        stack.append(v)
+            try:
+                S_, R_ = [int(x) for x in out[1]], [int(x) for x in out[3]]
+                bump(res, 'barrier_bounds_checked')
+                if min(S_) < n - len(blocked) - len(seen) or max(R_) > len(blocked) + len(seen):
+                    viol(res, '%s|arrays+R0|initially_recovered_infected_later' % sim, {'min_S': min(S_), 'max_R': max(R_), 'N': n, 'initially_recovered': len(blocked),
+                                                                                       'reachable_without_them': len(seen)})
+                if len(seen) < n - len(blocked):
+                    bump(res, 'barrier_cases_with_shielded_nodes')
+            except (TypeError, IndexError):
+                pass
         if n >= 2:
             res['nontrivial'] = 'start:%s:%s:%s:%d:%d:%s' % (sim, mode, case.get('I0_form'), len(case['I0']), len(case.get('R0') or []), gen.iso_key(case['graph']))
             res['sample'] = {'kind': kind, 'sim': sim, 'mode': mode, 'form': case.get('I0_form'), 'I0': case['I0'], 'R0': case.get('R0'),
